@@ -275,6 +275,21 @@ pub fn exec_step(s: &Suite, cfg: &Cfg, pool: &Pool, act: &Value, dst: &str) -> O
                 _ => single(guarded(|| Obj::Ct(s.encryptor2.encrypt_symmetric_new(p)))),
             }
         }
+        "reload" => {
+            // serialization round trip in the given format; the restored object replaces / is compared with the original
+            let a = get_ct(pool, a_name)?;
+            let full = act["mode"].as_str().unwrap_or("compact") == "full";
+            single(guarded(|| {
+                let mut buf: Vec<u8> = vec![];
+                if full {
+                    a.serialize_full(&s.ctx, &mut buf).unwrap();
+                    Obj::Ct(Ciphertext::deserialize_full(&s.ctx, &mut buf.as_slice()).unwrap())
+                } else {
+                    SerializableWithHeContext::serialize(a, &s.ctx, &mut buf).unwrap();
+                    Obj::Ct(<Ciphertext as SerializableWithHeContext>::deserialize(&s.ctx, &mut buf.as_slice()).unwrap())
+                }
+            }))
+        }
         "keyswitch" => {
             let a = get_ct(pool, a_name)?;
             forms_ct(
